@@ -395,6 +395,14 @@ def c06(tier):
     ck.add_judge(n, jst)
     report_run_bad(ck, "C06", bad, events, meta, "recorded Hasher feed differs from ItemHashFeed (or the accepted program does not compile)")
     ck.notes["runtime"] = stats
+    kev, kmeta = key_forms_events(ck, tier)
+    n2, bad2, jst2 = dx.tlc_judge("Trace_Cmp", "Trace_Cmp.cfg", kev, "c06k")
+    ck.add_judge(n2, jst2)
+    for i in bad2:
+        ck.violation({"kind": "key_form", "form": kmeta[i]["form"], "attr": kmeta[i]["attr"], "shape": kmeta[i]["shape"], "rustc_failed": bool(kev[i].get("rustc_failed"))},
+                     {"what": "the derived Hash / == does not use the key expression as written (placeholder `$` = the field as a place expression)",
+                      "event": kev[i], "source": kmeta[i]["src"], "diags": kmeta[i].get("diags")})
+    ck.notes["key_forms"] = len(kev)
     for i in (0, len(events) // 3, len(events) - 1):
         if events:
             e = events[i]
@@ -404,6 +412,81 @@ def c06(tier):
     ck.cov["rule"] = "every accepted (field configuration, trait set containing Hash) x shapes x entry points; all values; feed = byte sequence written to a recording Hasher"
     ck.cov["exhaustive"] = True
     return ck.finish()
+
+
+# key expressions of every syntactic form: the placeholder `$` stands for the field as a place expression
+KEY_FORMS = [
+    # (tag, field type, two values, key template, the same expression written against a plain binding `v` of the field type)
+    ("call", "fn(u8) -> u8", ["(|x| x + 1) as fn(u8) -> u8", "(|x| x * 2) as fn(u8) -> u8"], "$(3)", "v(3)"),
+    ("index", "[u8; 3]", ["[1, 2, 3]", "[1, 5, 3]"], "$[1]", "v[1]"),
+    ("tuple_field", "(u8, u16)", ["(1, 2)", "(3, 2)"], "$.1", "v.1"),
+    ("deref", "&'static u8", ["&4u8", "&9u8"], "*$", "*v"),
+    ("cast", "u8", ["200", "7"], "$ as u16 + 100", "v as u16 + 100"),
+    ("neg", "i8", ["3", "-3"], "-$", "-v"),
+    ("path_call", "u8", ["5", "6"], "u16::from($)", "u16::from(v)"),
+    ("method", "::std::vec::Vec<u8>", ["::std::vec![1, 2]", "::std::vec![9, 9]"], "$.len()", "v.len()"),
+    ("tuple_of", "u8", ["7", "10"], "($ % 3, $ / 3)", "(v % 3, v / 3)"),
+    ("macro_arg", "::core::option::Option<u8>", ["::core::option::Option::Some(1)", "::core::option::Option::None"], "matches!($, ::core::option::Option::Some(_))", "matches!(v, ::core::option::Option::Some(_))"),
+    ("block", "u8", ["1", "2"], "{ let q = $; q + 1 }", "{ let q = v; q + 1 }"),
+    ("twice", "u8", ["1", "2"], "$ + $", "v + v"),
+    ("paren", "u8", ["9", "4"], "($ % 4)", "(v % 4)"),
+]
+
+
+def key_forms_events(ck, tier):
+    """model-free: the feed / equality of the derived impls must be those of the key expression evaluated on the field"""
+    mods, meta = [], []
+    for (tag, fty, vals, tmpl, plain) in KEY_FORMS:
+        for attr in ("hash", "eq", "ord"):
+            for shape in ("named", "tuple", "enum_named", "enum_tuple"):
+                idx = len(mods)
+                D = {"hash": "Hash", "eq": "Eq, PartialEq, Hash", "ord": "Ord, PartialOrd, Eq, PartialEq, Hash"}[attr]
+                a = "#[%s(key = %s)]" % (attr, tmpl)
+                if shape == "named":
+                    # an inherent method named like the field: `$(..)` must call the field, not the method
+                    decl = "pub struct T { pub g: u8, %s pub f: %s }\n    impl T { #[allow(dead_code)] pub fn f(&self, _x: u8) -> u8 { 250 } }" % (a, fty)
+                    ctor, acc = "T { g: 1, f: %s }", "t.f"
+                elif shape == "tuple":
+                    decl = "pub struct T(pub u8, %s pub %s);" % (a, fty)
+                    ctor, acc = "T(1, %s)", "t.1"
+                elif shape == "enum_named":
+                    decl = "pub enum T { A, B { g: u8, %s f: %s } }" % (a, fty)
+                    ctor, acc = "T::B { g: 1, f: %s }", "(match t { T::B { f, .. } => f, _ => unreachable!() })"
+                else:
+                    decl = "pub enum T { A, B(u8, %s %s) }" % (a, fty)
+                    ctor, acc = "T::B(1, %s)", "(match t { T::B(_, f) => f, _ => unreachable!() })"
+                deref = "" if shape in ("named", "tuple") else "*"
+                src = """pub mod m%d {
+    #[::derive_ex::derive_ex(%s)] %s
+    #[allow(unused_parens, clippy::all)] fn key(t: &T) -> impl ::core::hash::Hash + ::core::cmp::PartialEq + ::core::fmt::Debug { let v: %s = ::core::clone::Clone::clone(&(%s%s)); %s }
+    pub fn run() -> String {
+        let a: T = %s; let b: T = %s;
+        let mut feed_ok = true; let mut eq_ok = true;
+        for t in [&a, &b] {
+            let mut exp = ::dx_support::feed_of(&1u8); exp.extend(::dx_support::feed_of(&key(t)));
+            let got = ::dx_support::feed_of(t);
+            // (an enum feeds its discriminant first: compare the tail)
+            if !got.ends_with(&exp) { feed_ok = false; }
+        }
+        %s
+        format!("{{\\"id\\":%d,\\"ev\\":\\"keyform\\",\\"form\\":\\"%s\\",\\"attr\\":\\"%s\\",\\"feed_matches\\":{},\\"eq_matches\\":{}}}\\n", feed_ok, eq_ok)
+    }
+}""" % (idx, D, decl, fty, deref, acc, plain, ctor % vals[0], ctor % vals[1],
+        "" if attr == "hash" else "eq_ok = ((a == b) == (key(&a) == key(&b))) && (a == a) && (b == b);", idx, tag, attr)
+                mods.append((idx, src))
+                meta.append({"form": tag, "attr": attr, "shape": shape, "src": src})
+    import checks_run
+    res, failed = checks_run.run_modules(mods, "c06k")
+    events = []
+    for i, m in enumerate(meta):
+        if i in res:
+            e = dict(res[i][0])
+            e.pop("id", None)
+            events.append(e)
+        else:
+            events.append({"ev": "keyform", "form": m["form"], "attr": m["attr"], "feed_matches": False, "eq_matches": False, "rustc_failed": True})
+            m["diags"] = failed.get(i)
+    return events, meta
 
 
 def c02(tier):
